@@ -328,3 +328,37 @@ Fixpoint go_map_set2 {V} (k : N * N) (v : V) (m : list ((N * N) * V)) : list ((N
   | (k', v') :: r =>
     if (N.eqb (fst k) (fst k') && N.eqb (snd k) (snd k'))%bool then (k, v) :: r else (k', v') :: go_map_set2 k v r
   end.
+
+(* ---- a heap of trie nodes (package trie) ----------------------------------------------------------
+   A *Trie is the index of its node in the heap, nil is -1; a node is its map[byte]*Trie as an
+   association list from key to address (ascending by key).  Dereferencing nil (or an address outside the heap)
+   panics.  New() appends an empty node.  Nothing is ever freed: unlinked nodes stay as garbage. *)
+Definition go_tnode : Type := list (N * Z).
+Definition go_theap : Type := list go_tnode.
+
+Fixpoint tn_get (k : N) (nd : go_tnode) : Z :=
+  match nd with
+  | [] => (-1)%Z
+  | (k', a) :: r => if N.eqb k' k then a else tn_get k r
+  end.
+
+(* m[k] = a: the list is kept ascending by key, so a map has one representation *)
+Fixpoint tn_put (k : N) (a : Z) (nd : go_tnode) : go_tnode :=
+  match nd with
+  | [] => [(k, a)]
+  | (k', a') :: r =>
+    if N.ltb k k' then (k, a) :: nd
+    else if N.eqb k k' then (k, a) :: r
+    else (k', a') :: tn_put k a r
+  end.
+
+Definition tn_del (k : N) (nd : go_tnode) : go_tnode := filter (fun p => negb (N.eqb (fst p) k)) nd.
+
+Definition go_heap_get {S R} (h : go_theap) (p : Z) (k : N) (c : Z -> res S R) : res S R :=
+  go_index h p (fun nd => c (tn_get k nd)).
+Definition go_heap_len {S R} (h : go_theap) (p : Z) (c : Z -> res S R) : res S R :=
+  go_index h p (fun nd => c (go_len nd)).
+Definition go_heap_put {S R} (h : go_theap) (p : Z) (k : N) (a : Z) (c : go_theap -> res S R) : res S R :=
+  go_index h p (fun nd => go_set h p (tn_put k a nd) c).
+Definition go_heap_del {S R} (h : go_theap) (p : Z) (k : N) (c : go_theap -> res S R) : res S R :=
+  go_index h p (fun nd => go_set h p (tn_del k nd) c).
